@@ -6,7 +6,7 @@ VERIF = os.path.dirname(os.path.dirname(os.path.abspath(__file__)))
 roots = [r for r in (sys.argv[1:] or ["/tmp/benign5"]) if os.path.isdir(r)]  # one round at a time: earlier rounds are committed
 rows = []
 for ROOT in dict.fromkeys(roots):
-    tag = {"/tmp/benign": "", "/tmp/benign2": "b", "/tmp/benign3": "c", "/tmp/benign4": "d", "/tmp/benign5": "e"}.get(ROOT, "")
+    tag = {"/tmp/benign": "", "/tmp/benign2": "b", "/tmp/benign3": "c", "/tmp/benign4": "d", "/tmp/benign5": "e", "/tmp/benign6": "f"}.get(ROOT, "")
     for pid in sorted(os.listdir(ROOT)):
         out = os.path.join(ROOT, pid, "out")
         if not os.path.isdir(out):
